@@ -289,6 +289,100 @@ theorem wrapper_transparent (s : State) (i : Nat) (a : Allocator) (addr : Nat) (
   rw [firstFail_dealloc, firstFail_dealloc]
   rfl
 
+/-! ## a defect next to the property: the inline record handed to `freeMemoryLeakNode`
+
+The property speaks about what is REPORTED.  What the silent release then does to the bookkeeping record is
+outside its statement; the model shows it (event `nfree false` = `allocator->freeMemoryLeakNode(node)` with a
+`node` that was not obtained from `allocMemoryLeakNode`, i.e. a pointer into the block being released). -/
+
+/-- A release passes the inline record of the block (a pointer INTO the block) to `freeMemoryLeakNode` exactly when
+    the release is silent, asks for the separate layout, and the record was allocated inline. -/
+theorem inline_record_freed_iff (s : State) (a : Allocator) (addr : Nat) (file : String) (line : Nat) (sep : Bool)
+    (n : Node) (hn : (abs s).map addr = some n) (hz : addr ≠ 0) :
+    Ev.nfree false ∈ (dealloc s a addr file line sep).2 ↔
+      sep = true ∧ n.sepNode = false ∧ matching s.typeChecking n.allocator a = true ∧ validGuard n = true := by
+  have hr : s.table.retrieveNode addr = some n := hn
+  simp only [dealloc, hz, if_false, hr, List.mem_append, List.mem_singleton, reduceCtorEq, or_false]
+  unfold checkForCorruption
+  by_cases h1 : matching s.typeChecking n.allocator a = true
+  · by_cases h2 : validGuard n = true
+    · by_cases h3 : sep = true
+      · cases h4 : n.sepNode <;> simp [h1, h2, h3, h4]
+      · simp [h1, h2, h3]
+    · simp [h1, h2, failEv]
+  · simp [h1, failEv]
+
+/-- with one layout per block (the release uses the layout the block was allocated with) it never happens -/
+theorem consistent_layout_never_frees_inline_record (s : State) (a : Allocator) (addr : Nat) (file : String) (line : Nat)
+    (n : Node) (hn : (abs s).map addr = some n) (hz : addr ≠ 0) :
+    Ev.nfree false ∉ (dealloc s a addr file line n.sepNode).2 := by
+  rw [inline_record_freed_iff s a addr file line n.sepNode n hn hz]
+  intro h
+  rw [h.1] at h
+  exact absurd h.2.1 (by decide)
+
+/-- the full statement one would like for the real overloads: whatever family acquired a block and whatever family
+    releases it, no release hands a pointer into the block to `freeMemoryLeakNode` -/
+def overloads_never_free_inline_record_full : Prop :=
+  ∀ (c : Current) (s : State) (f g : Family) (size : Nat) (file : String) (line result : Nat) (fill : UInt8),
+    s.Inv → result ≠ 0 → isLive s result = false →
+    Ev.nfree false ∉ (release c g (acquire c f s size file line result true fill).1 result file line).2
+
+/-- It is false: type checking off, `operator new` then `free()` (the `free` overload asks for the separate layout,
+    the block of `operator new` has its record inline).  With the default allocators this is `free()` of a pointer into
+    the block (confirmed on the real code under ASan: "attempting free on address which was not malloc()-ed"). -/
+theorem overloads_never_free_inline_record_fails_known : ¬ overloads_never_free_inline_record_full := by
+  intro h
+  have := h { newA := .plain 0 "Standard New Allocator" "new" "delete",
+              newArrayA := .plain 1 "Standard New [] Allocator" "new []" "delete []",
+              mallocA := .plain 2 "Standard Malloc Allocator" "malloc" "free" }
+    (disableTypeChecking (State.init 73)) .new .malloc 10 "a.cpp" 1 1168 0xA5
+    (Table.inv_empty 73 (by decide)) (by decide) (by decide)
+  exact this (by decide)
+
+/-- what is true: through the overloads it happens exactly for a silent `free()` of a block whose record is inline -/
+theorem overloads_free_inline_record_iff (c : Current) (g : Family) (s : State) (inv : s.Inv) (n : Node)
+    (hn : n ∈ s.nodes) (file : String) (line : Nat) :
+    Ev.nfree false ∈ (release c g s n.addr file line).2 ↔
+      g = .malloc ∧ n.sepNode = false ∧ matching s.typeChecking n.allocator c.mallocA = true ∧ validGuard n = true := by
+  have hr : s.table.retrieveNode n.addr = some n := (retrieve_some_iff inv).mpr ⟨hn, rfl⟩
+  have hz : n.addr ≠ 0 := inv.nonnull n hn
+  have hp : (abs (invalidateMemory s n.addr)).map n.addr = some (poison n) := by
+    show (invalidateMemory s n.addr).table.retrieveNode n.addr = some (poison n)
+    unfold invalidateMemory
+    simp only [hr]
+    rw [retrieve_modify inv poison poison_addr n.addr n.addr]
+    simp [hr]
+  have htc : (invalidateMemory s n.addr).typeChecking = s.typeChecking := by
+    unfold invalidateMemory; split <;> rfl
+  have hv : validGuard (poison n) = validGuard n := validGuard_congr (guardAt_poison n)
+  cases g with
+  | malloc =>
+    simp only [release]
+    rw [inline_record_freed_iff _ _ _ _ _ _ (poison n) hp hz, htc, hv]
+    simp [poison]
+  | new =>
+    simp only [release]
+    rw [inline_record_freed_iff _ _ _ _ _ _ (poison n) hp hz]
+    simp
+  | newArray =>
+    simp only [release]
+    rw [inline_record_freed_iff _ _ _ _ _ _ (poison n) hp hz]
+    simp
+
+/-- … so with type checking on and the `new` / `new[]` families different from the `malloc` family, never -/
+theorem overloads_never_free_inline_record_partial (c : Current) (g : Family) (s : State) (inv : s.Inv) (n : Node)
+    (hn : n ∈ s.nodes) (file : String) (line : Nat) (htc : s.typeChecking = true)
+    (hlay : n.sepNode = false → family n.allocator ≠ family c.mallocA)
+    (hc : ConsistentIds n.allocator c.mallocA) :
+    Ev.nfree false ∉ (release c g s n.addr file line).2 := by
+  rw [overloads_free_inline_record_iff c g s inv n hn]
+  rintro ⟨_, h2, h3, _⟩
+  have := (matching_iff s.typeChecking n.allocator c.mallocA hc).mp h3
+  rcases this with h | h
+  · rw [htc] at h; exact absurd h (by decide)
+  · exact hlay h2 h
+
 /-! ## non-vacuity -/
 
 def c6New : Allocator := .plain 0 "Standard New Allocator" "new" "delete"
